@@ -27,11 +27,24 @@ pub struct Cfg {
 #[derive(Clone, Debug, Serialize, Deserialize)]
 pub enum Step {
     /// Post a report with these exact 18-decimals values, then use the feed once and clear the oracle.
-    Quote { token: usize, price: u128, bid: u128, ask: u128 },
+    Quote {
+        token: usize,
+        #[serde(with = "s128")]
+        price: u128,
+        #[serde(with = "s128")]
+        bid: u128,
+        #[serde(with = "s128")]
+        ask: u128,
+    },
     /// Use several feeds in one `set_prices_from_price_feed`.
     UseMany { tokens: Vec<usize> },
     /// Direct call of `Decimal::try_from_price(price, price_decimals, token decimals, precision)`.
-    Direct { token: usize, price: u128, price_decimals: u8 },
+    Direct {
+        token: usize,
+        #[serde(with = "s128")]
+        price: u128,
+        price_decimals: u8,
+    },
     Clock { dsec: u32 },
 }
 
